@@ -392,7 +392,7 @@ func c02LaneFiles(t *testing.T, r *sim.Run) {
 			a.label = a.path
 		}
 	}
-	r.Logf("Files{Paths:%q}", argv)
+	r.Logf("Files{Paths:%s}", strings.ReplaceAll(fmt.Sprintf("%q", argv), c02Tmp, "$TMP"))
 	files := Files{Paths: argv, AllowLabels: true}
 	ref := &refParser{}
 	// Files exposes one Scan loop over all files: build the whole expected sequence
